@@ -78,6 +78,8 @@ RULE = ("identity: random (seed, rate) pairs, rates log-uniform in [1e-3, 1e3]; 
         "float64 / int64 / float32, horizon as float / numpy float / one-element list or tuple / grid (array, list, tuple); `par` "
         "small-population cases of `par_runs` paths through parallel=True; replay cases are sessions of the shared engine")
 ASSUMPTIONS = ["numpy's standard_exponential produces independent Exp(1) variates (hypothesis of the clock theorems; floats treated as reals)",
+               "parallel path / seed=True: generators seeded from OS entropy (one per draw on the unchanged tree) give independent uniform streams; "
+               "the parallel cases run pygom's parallel code path on dask's synchronous scheduler (in-process)",
                "the law of whole paths follows from the one-step law by the strong Markov property (standard CTMC construction, not formalised); "
                "the end-to-end statistics check exactly this composition on the real code",
                "rates are autonomous (with time-dependent rates the first-reaction method with frozen rates is not exact; outside the property's closed-form families)",
